@@ -61,6 +61,13 @@ def install_class_writes(I: Interp, qual: str):
     for st in f.node.body:
         if isinstance(st, ast.FunctionDef):
             frame.vars[st.name] = Closure(st, f.module, f"{qual}.{st.name}", frame)
+        elif isinstance(st, ast.Assign) and len(st.targets) == 1 and isinstance(st.targets[0], ast.Name) \
+                and isinstance(st.value, (ast.Dict, ast.List, ast.Set, ast.Constant, ast.Tuple)):
+            # plain local containers / constants that the nested functions close over
+            try:
+                frame.vars[st.targets[0].id] = I.eval(st.value, frame)
+            except (AnalysisError, SymRaise):
+                pass
     n = 0
     for cq, attr, value, st in class_writes(I.src, qual):
         cls = I.get_class(cq)
